@@ -618,6 +618,11 @@ def gen_request(ctx, actor=None, ver=None, max_items=3, weights=None,
         else:
             items.append({'op': k})
     req = {'actor': actor, 'ver': list(ver), 'items': items}
+    if r.random() < 0.25:
+        # batch item identifiers of assorted lengths (echoed by the server),
+        # on single-item requests too
+        req['ids'] = ['%02x' % (i + 1) + ctx.rbytes(r.choice(
+            [0, 1, 6, 7, 8, 15, 23, 31, 63])) for i in range(len(items))]
     if len(items) > 1:
         req['cont'] = r.choice([None, 1, 2, 2])
         if r.random() < 0.2:
